@@ -527,6 +527,10 @@ class DynDiGraph(nx.DiGraph):
             raise nx.NetworkXError(
                 "The t argument must be specified.")
 
+        if self.has_edge(u, v) and (t[0] if isinstance(t, list) else t) < self._succ[u][v]['t'][-1][0]:
+            raise ValueError("The specified interaction extension is broader than "
+                             "the ones already present for the given nodes.")
+
         if u not in self._succ:
             self._succ[u] = self.adjlist_inner_dict_factory()
             self._pred[u] = self.adjlist_inner_dict_factory()
